@@ -20,6 +20,7 @@ type c7Surv struct {
 	id    uint32
 	start time.Duration
 	T     time.Duration
+	cap   int // depth of this survey's response queue (the context's ReadQLen when it was sent)
 }
 
 type c7Ctx struct {
@@ -32,6 +33,7 @@ type c7Ctx struct {
 	closed bool
 	n      int
 	T      time.Duration
+	qlen   int // ReadQLen set on this context (0: never set, the default applies)
 }
 
 func c07Run(w *W) {
@@ -128,7 +130,10 @@ func c07Run(w *W) {
 				continue
 			}
 			c.n++
-			sv := &c7Surv{n: c.n, tag: fmt.Sprintf("s%d-%d", c.idx, c.n), start: w.Now(), T: c.T}
+			sv := &c7Surv{n: c.n, tag: fmt.Sprintf("s%d-%d", c.idx, c.n), start: w.Now(), T: c.T, cap: 128}
+			if c.qlen > 0 {
+				sv.cap = c.qlen
+			}
 			w.Op("ctx%d survey %s", c.idx, sv.tag)
 			// a respondent may connect at the very moment the survey is sent: it
 			// gets this survey or not, and every later one
@@ -266,7 +271,7 @@ func c07Run(w *W) {
 						}
 						w.Delivery++
 						cx.recv = nil
-					} else if len(cx.queue) < 128 {
+					} else if len(cx.queue) < cx.cur.cap {
 						cx.queue = append(cx.queue, tag)
 					}
 				}
@@ -314,6 +319,24 @@ func c07Run(w *W) {
 				}
 				c.recv = call
 			}
+		case k == 8 && a%5 == 0 && !c.closed:
+			// the receive queue length is changed (it applies to surveys sent
+			// from now on): the survey in progress, its queued responses and a
+			// Recv waiting on it are unaffected
+			q := []int{1, 2, 5, 128}[(a/5)%4]
+			w.Op("ctx%d SetOption(ReadQLen, %d)", c.idx, q)
+			var err error
+			if c.c != nil {
+				err = c.c.SetOption(mangos.OptionReadQLen, q)
+			} else {
+				err = s.SetOption(mangos.OptionReadQLen, q)
+			}
+			if err != nil {
+				w.Failf("C19/readqlen-rejected", "surveyor ctx%d SetOption(ReadQLen, %d): %v", c.idx, q, err)
+				return
+			}
+			c.qlen = q
+			w.Probe("readqlen-changed-during-survey")
 		case k == 8: // time passes: short of, exactly to, or beyond the expiry
 			ds := []time.Duration{T / 3, T - 1, T, T + 1, 2 * T, time.Millisecond}
 			d := ds[a%len(ds)]
@@ -338,7 +361,7 @@ func c07Run(w *W) {
 				w.Failf("HARNESS/ctx", "%v", err)
 				return
 			}
-			cx := &c7Ctx{idx: len(ctxs), c: nc, T: T}
+			cx := &c7Ctx{idx: len(ctxs), c: nc, T: T, qlen: ctxs[0].qlen} // (a new context starts with the socket's settings)
 			ctxs = append(ctxs, cx)
 			w.Op("ctx%d opened", cx.idx)
 			w.Probe("context-opened-mid-history")
